@@ -427,10 +427,21 @@ def rule_8(ctx):
         cells.update({f'A{i}': f'={code}', f'B{i}': f'=A{i}+1', f'C{i}': f'=1-{code}', f'D{i}': f'=ABS({code})*2', f'E{i}': f'=ISERROR({code})',
                       f'F{i}': f'={code}*{other}', f'G{i}': f'=IF(ISERR(A{i}),1,2)', f'H{i}': f'=ROUND(B{i},1)+3', f'I{i}': f'=ISNA(C{i})',
                       f'J{i}': f'={other}-A{i}', f'K{i}': f'=IF(ISERROR(B{i}),"caught",B{i})', f'L{i}': f'=-A{i}', f'M{i}': f'=A{i}>=1'})
+        # chains: the leftmost error wins wherever it stands in the chain and whatever comes after it
+        cells.update({f'N{i}': f'=1+A{i}+{other}', f'O{i}': f'=2*{code}*5*{other}', f'P{i}': f'=1-A{i}-{other}', f'Q{i}': f'=8/{code}/{other}',
+                      f'R{i}': f'=1+{code}*2+{other}', f'S{i}': f'=3+5+A{i}+2+{other}+{codes[(i + 1) % 7]}', f'T{i}': f'=2*3*A{i}*{other}*1'})
         err = ('error', code)
+        want.update({f'{c}{i}': err for c in 'NOPQRST'})
         want.update({f'A{i}': err, f'B{i}': err, f'C{i}': err, f'D{i}': err, f'E{i}': ('Boolean', True), f'F{i}': err,
                      f'G{i}': ('Number', 2 if code == '#N/A' else 1), f'H{i}': err, f'I{i}': ('Boolean', code == '#N/A'), f'J{i}': ('error', other),
                      f'K{i}': ('Text', 'caught'), f'L{i}': err, f'M{i}': err})
+    # whole numbers beyond the range of a double are values like any other: stored, handed on, inspected
+    big = {'U1': ('=2^1024', 2 ** 1024), 'U2': ('=2^1023*2', 2 ** 1024), 'U3': ('=10^308*10', 10 ** 309), 'U4': ('=-(2^1500)', -2 ** 1500),
+           'U5': ('=1-2^1100', 1 - 2 ** 1100), 'U6': ('=2^1024-2^1024', 0), 'U7': ('=2^1023', 2 ** 1023)}
+    for a, (f, v) in big.items():
+        i = a[1:]
+        cells.update({a: f, f'V{i}': f'={a}+1', f'W{i}': f'={a}>0', f'X{i}': f'=ISNUMBER({a})', f'Y{i}': f'=ISERROR({a})'})
+        want.update({a: ('Number', v), f'V{i}': ('Number', v + 1), f'W{i}': ('Boolean', v > 0), f'X{i}': ('Boolean', True), f'Y{i}': ('Boolean', False)})
     wb = W.Workbook(ctx, cells)
     n = 0
     for a, w in want.items():
@@ -444,7 +455,7 @@ def rule_8(ctx):
                    f'{a} = {cells[a]} evaluates to {got!r}, expected {w!r}: an Excel error is a value - written as a literal, stored in a cell or '
                    'produced by a formula it propagates (leftmost first) through operators, functions and dependent cells, and only the inspectors '
                    'and IFERROR look at it')
-    ctx.floor(90, 'error cells')
+    ctx.floor(170, 'error cells')
 
 
 RULES = [
